@@ -17,6 +17,7 @@ Vals == CASE Mode \in {"wire", "foreign"} -> (IF KindsUnderTest = {"PAIRS"} THEN
           [] Mode = "limits" -> LimitDom
           [] Mode = "loose" -> LooseDom
           [] Mode = "variants" -> VarDom \cup InflateDom
+          [] Mode = "reuse" -> UNION { ReuseDom(k) : k \in KindsUnderTest }
           [] OTHER -> UNION { Tiny(k) : k \in KindsUnderTest }
 
 McInit == Init /\ pc = "build" /\ hist = << >>
@@ -129,10 +130,41 @@ HistNext ==
      /\ pc' = "calls"
      /\ Emit([script |-> "prog", v |-> hist[1].start, ops |-> SubSeq(hist', 2, Len(hist'))])
 
-McNext == CASE Mode = "hist" -> HistNext [] Mode = "loose" -> LimitsNext [] Mode = "compound" -> CompoundNext [] Mode = "wire" -> WireNext [] Mode = "faults" -> FaultNext [] Mode = "limits" -> LimitsNext
+\* reuse: a receiver that already holds a packet decodes another one (C18: results do not depend on what
+\* was called before; C02: what it then holds is the value that was encoded).  Two fixed programs per
+\* ordered pair (v, w) of values of one kind:
+\*   1: v is encoded and decoded into a fresh receiver 2; the caller rebuilds packet 1 as w, encodes it and
+\*      decodes that into receiver 2 again, then uses receiver 2
+\*   2: v is encoded; the caller rebuilds packet 1 as w and decodes the encoding of v into packet 1 itself
+ReuseProg(shape) ==
+  IF shape = 1 THEN << "marshal1", "unmarshal12", "dest2", "marshal2", "rebuild1", "marshal1", "unmarshal22", "size2", "dest2", "marshal2" >>
+  ELSE << "marshal1", "rebuild1", "unmarshal11", "size1", "dest1", "marshal1" >>
+ReuseCall(op, k, w) ==
+  CASE op = "rebuild1" -> Build(1, w)
+    [] op = "unmarshal22" -> pk[2].k # "NONE" /\ Unmarshal(k, 1, 2, RefDecode(k, buf[1]))
+    [] op = "unmarshal11" -> Unmarshal(k, 1, 1, RefDecode(k, buf[1]))
+    [] op = "size2" -> pk[2].k # "NONE" /\ SizeOf(2, SizeAny(pk[2]))
+    [] op = "size1" -> pk[1].k # "NONE" /\ SizeOf(1, SizeAny(pk[1]))
+    [] op = "dest1" -> pk[1].k # "NONE" /\ DestOf(1, DestAny(pk[1]))
+    [] op = "marshal1" -> pk[1].k # "NONE" /\ Marshal(1, RefMarshal(pk[1]))
+    [] OTHER -> HistCall(op)
+ReuseNext ==
+  \/ /\ pc = "build" /\ \E v \in Vals, shape \in {1, 2} : \E w \in { x \in Vals : x.k = v.k } :
+          Build(1, v) /\ hist' = << [start |-> v, w |-> w, shape |-> shape] >>
+     /\ pc' = "calls"
+  \/ /\ pc = "calls"
+     /\ LET prog == ReuseProg(hist[1].shape)
+            i == Len(hist)
+            op == prog[i] IN
+        /\ ReuseCall(op, hist[1].start.k, hist[1].w)
+        /\ hist' = Append(hist, IF op = "rebuild1" THEN [op |-> op, v |-> hist[1].w] ELSE [op |-> op])
+        /\ pc' = IF i = Len(prog) THEN "done" ELSE "calls"
+        /\ (i = Len(prog) => Emit([script |-> "prog", v |-> hist[1].start, ops |-> SubSeq(hist', 2, Len(hist'))]))
+
+McNext == CASE Mode = "hist" -> HistNext [] Mode = "reuse" -> ReuseNext [] Mode = "loose" -> LimitsNext [] Mode = "compound" -> CompoundNext [] Mode = "wire" -> WireNext [] Mode = "faults" -> FaultNext [] Mode = "limits" -> LimitsNext
             [] Mode = "variants" -> VariantsNext [] Mode = "foreign" -> ForeignNext
             [] Mode = "dispatch" -> DispatchNext [] Mode = "dgram" -> DgramNext
-McStep == McNext /\ (Mode # "hist" => UNCHANGED hist)
+McStep == McNext /\ (Mode \notin {"hist", "reuse"} => UNCHANGED hist)
 McSpec == McInit /\ [][McStep]_mvars
 
 \* ---- invariants beyond Codec's ------------------------------------------
@@ -163,6 +195,10 @@ CnameDefined == (Mode = "compound" /\ pk[1].k = "CP" /\ Valid(pk[1].pkts)) => Le
 \* would disable a differing repeat; here the reference results are functions of the value)
 PacketUntouched == [][Mode = "hist" /\ pc = "calls" /\ hist'[Len(hist')].op # "rebuild1" => pk'[1] = pk[1]]_mvars
 BufferOnlyByMarshal == [][Mode = "hist" /\ pc = "calls" /\ buf'[1] # buf[1] => hist'[Len(hist')].op = "marshal1"]_mvars
+
+\* ---- reuse: what a receiver holds after a decode is the encoded value, whatever it held before
+ReceiverHistoryFree == (Mode = "reuse" /\ pc = "done") =>
+  IF hist[1].shape = 1 THEN pk[2] = Norm(D0, hist[1].w) ELSE pk[1] = Norm(D0, hist[1].start)
 
 \* ---- limits (C08): every boundary value is decided, and never both ways ----
 LimitsDecided == (Mode = "limits" /\ pk[1].k # "NONE") => (WF(D0, pk[1]) # Over(pk[1]))
